@@ -60,6 +60,15 @@ reg("C05", "model_checking",
     "Rare reactions draw on per-run budgets (stated in the evidence); oracle timing constants are the UG101 values hard-coded in the check; model = implementation on a hand-stepped asyncio loop.",
     "DESIGN.md section 3 C05")
 
+reg("C11", "fault_enumeration",
+    "complete enumeration of reset/error codes x arrival timings, plus deviation-bounded stateless search over per-loop-iteration event injection on the real Gateway+AshProtocol",
+    "All 256 RSTACK codes and all non-reset ERROR codes x {before the request, at once, late but in time, same loop iteration as the timeout, after the timeout, twice} x counter pairs x "
+    "{reset, start-up wait}; then every schedule with <= 2 (thorough 3) injected events {software / power-on RSTACK, ERROR, NCP DATA, port error, EOF, host send} each placed in any loop "
+    "iteration, optionally coinciding with the earliest timer, for reset, repeated reset, start-up wait and reset after traffic. Judged: RST bytes, completion iff software RSTACK after the request "
+    "and before the timeout, failure calls for every other code, release of waiters on loss, both counters at zero after the handshake (checked through real traffic).",
+    "Timeouts 5 s / 1 s hard-coded in the oracle; same-iteration races accept either winner; only _run_once-feasible orders are generated.",
+    "DESIGN.md section 3 C11")
+
 ALL = ["C%02d" % i for i in range(1, 21)]
 
 
